@@ -5,6 +5,7 @@
 //
 // stdin:   shared <hexwkb> <hexwkb> ...
 //          seed <n>
+//          cold                                (optional: cold-start round, see main)
 //          thread <op> ; <op> ; ...            (one line per thread)
 // operands: P<i> private slot of the thread, S<i> shared geometry (read only)
 // stdout:  T<i> <result> <result> ...          one token per op (wkb / free / ctx: none; rwkt / rjson: two)
@@ -204,10 +205,15 @@ static void* worker(void* arg) {
 int main(int argc, char** argv) {
     parallel = !(argc > 1 && std::string(argv[1]) == "seq");
     std::string line;
-    GEOSContextHandle_t h0 = GEOS_init_r(); GEOSContext_setErrorHandler_r(h0, quiet); GEOSContext_setNoticeHandler_r(h0, quiet);
-    while (std::getline(std::cin, line)) {
-        std::stringstream ss(line); std::string tag; ss >> tag;
-        if (tag == "shared") { std::string hx; while (ss >> hx) { GEOSGeometry* g = GEOSGeomFromHEX_buf_r(h0, (const unsigned char*)hx.data(), hx.size()); if (g) shared.push_back(g); } }
+    std::vector<std::string> lines; bool cold = false;
+    while (std::getline(std::cin, line)) { lines.push_back(line); if (line == "cold") cold = true; }
+    // cold start: the main thread makes NO GEOS call before the workers exist, so the very first use of every process-wide object
+    // (default factory, lazily initialised statics) happens concurrently in the workers, which start with GEOS_init_r at the barrier
+    GEOSContextHandle_t h0 = nullptr;
+    if (!cold) { h0 = GEOS_init_r(); GEOSContext_setErrorHandler_r(h0, quiet); GEOSContext_setNoticeHandler_r(h0, quiet); }
+    for (const std::string& ln : lines) {
+        std::stringstream ss(ln); std::string tag; ss >> tag;
+        if (tag == "shared" && !cold) { std::string hx; while (ss >> hx) { GEOSGeometry* g = GEOSGeomFromHEX_buf_r(h0, (const unsigned char*)hx.data(), hx.size()); if (g) shared.push_back(g); } }
         else if (tag == "seed") ss >> seed;
         else if (tag == "thread") { std::vector<std::string> ops; std::string rest; std::getline(ss, rest); std::stringstream rs(rest); std::string op;
             while (std::getline(rs, op, ';')) { size_t a = op.find_first_not_of(' '); if (a != std::string::npos) ops.push_back(op.substr(a)); } programs.push_back(ops); }
@@ -247,6 +253,6 @@ int main(int argc, char** argv) {
     if (shared_prep) GEOSPreparedGeom_destroy_r(h0, shared_prep);
     if (shared_tree) GEOSSTRtree_destroy_r(h0, shared_tree);
     for (auto* g : shared) GEOSGeom_destroy_r(h0, g);
-    GEOS_finish_r(h0);
+    if (h0) GEOS_finish_r(h0);
     return 0;
 }
